@@ -32,6 +32,18 @@ func svBool(x bool) sval    { return sval{k: 'b', b: x} }
 type sinterp struct {
 	env  map[ssa.Value]sval
 	prev *ssa.BasicBlock
+	// input: values that carry the quantity being varied. The representatives are an exact
+	// abstraction only while that quantity is merely compared (order-type abstraction);
+	// nonCmp is set when it enters arithmetic, and the callers then refuse to conclude.
+	input  map[ssa.Value]bool
+	nonCmp bool
+}
+
+func (s *sinterp) markInput(v ssa.Value) {
+	if s.input == nil {
+		s.input = map[ssa.Value]bool{}
+	}
+	s.input[v] = true
 }
 
 func basicOf(t types.Type) *types.Basic {
@@ -327,6 +339,9 @@ func (s *sinterp) step(blk *ssa.BasicBlock, start int) (next *ssa.BasicBlock, re
 		case *ssa.Phi:
 			for i, p := range blk.Preds {
 				if p == s.prev {
+					if s.input[x.Edges[i]] {
+						s.markInput(x)
+					}
 					if v, ok := s.eval(x.Edges[i]); ok {
 						s.env[x] = v
 					} else {
@@ -335,10 +350,20 @@ func (s *sinterp) step(blk *ssa.BasicBlock, start int) (next *ssa.BasicBlock, re
 				}
 			}
 		case *ssa.BinOp:
+			if s.input[x.X] || s.input[x.Y] {
+				switch x.Op {
+				case token.EQL, token.NEQ, token.LSS, token.LEQ, token.GTR, token.GEQ:
+				default:
+					s.nonCmp = true
+				}
+			}
 			if v, ok := s.binop(x); ok {
 				s.env[x] = v
 			}
 		case *ssa.UnOp:
+			if s.input[x.X] && x.Op != token.NOT {
+				s.markInput(x)
+			}
 			if v, ok := s.eval(x.X); ok {
 				switch x.Op {
 				case token.NOT:
@@ -361,10 +386,16 @@ func (s *sinterp) step(blk *ssa.BasicBlock, start int) (next *ssa.BasicBlock, re
 				}
 			}
 		case *ssa.Convert:
+			if s.input[x.X] {
+				s.markInput(x)
+			}
 			if v, ok := s.eval(x.X); ok {
 				s.env[x] = wrapTo(x.Type(), v)
 			}
 		case *ssa.ChangeType:
+			if s.input[x.X] {
+				s.markInput(x)
+			}
 			if v, ok := s.eval(x.X); ok {
 				s.env[x] = v
 			}
@@ -378,6 +409,11 @@ func (s *sinterp) step(blk *ssa.BasicBlock, start int) (next *ssa.BasicBlock, re
 						all = false
 					}
 					args = append(args, v)
+				}
+				for _, a := range x.Call.Args {
+					if s.input[a] && cal.String() == "math.Abs" {
+						s.markInput(x) // |f| is monotone on each sign region; representatives cover both signs
+					}
 				}
 				if all {
 					switch cal.String() {
@@ -422,11 +458,12 @@ func sinterpFunc(fn *ssa.Function, args ...sval) (sval, bool) {
 	s := &sinterp{env: map[ssa.Value]sval{}}
 	for i, p := range fn.Params {
 		s.env[p] = args[i]
+		s.markInput(p)
 	}
 	blk := fn.Blocks[0]
 	for steps := 0; steps < 500; steps++ {
 		next, ret, ok := s.step(blk, 0)
-		if !ok {
+		if !ok || s.nonCmp {
 			return sval{}, false
 		}
 		if ret != nil {
